@@ -32,10 +32,15 @@
    * ch.swissquote: the two rows of a currency exchange become ONE transaction dated on the second
      row; a purchase/sale changes two commodities; a dividend row is booked from Stückpreis and
      Kosten, not from Nettobetrag; an exchange row left without partner at the end of the file is
-     dropped without a diagnostic (findings/C13-swissquote-forex-pairs.md). *)
+     dropped without a diagnostic (findings/C13-swissquote-forex-pairs.md).
+   * us.interactivebrokers: quantities, proceeds, deposit amounts, currency-trade commissions and
+     cash balances are rounded to two places while stock commissions, dividends, interest, taxes
+     and position quantities are not; on statements with IB's precision the emitted assertions
+     contradict the emitted transactions (findings/C13-interactivebrokers-rounding.md).  The
+     theorems below are PARTIAL: one per kind of booking row, on the record alone. *)
 From Coq Require Import ZArith QArith List Bool.
 From Knut Require Import Model.Str Model.Dec Model.Date Model.Account Model.Ledger Model.Journal
-     Model.ImpCommonA Model.ImpCommonB Model.Imp.Revolut2 Model.Imp.Revolut Model.Imp.Wise Model.Imp.Swissquote
+     Model.ImpCommonA Model.ImpCommonB Model.Imp.Revolut2 Model.Imp.Revolut Model.Imp.Wise Model.Imp.Swissquote Model.Imp.Interactivebrokers
      Spec.ImpSpecA Spec.ImpSpecB Proofs.DecValue Proofs.ImpProofsB.
 Import ListNotations.
 
@@ -192,3 +197,81 @@ Example C13_swissquote_statement_wf :
                 w_sq_row [70;111;114;101;120;45;71;117;116;115;99;104;114;105;102;116]%Z [56;51;48]%Z;
                 w_sq_row [70;111;114;101;120;45;66;101;108;97;115;116;117;110;103]%Z [45;57;49;56]%Z] = true.
 Proof. vm_compute. reflexivity. Qed.
+
+(* ---------------------------------------------------------------- us.interactivebrokers (partial) *)
+(* Full statement (NOT proved; the model is compared byte for byte with the binary on generated
+   statements instead): for every activity statement whose records are well-formed, import yields,
+   in record order, one transaction per Trades/Order row (Stocks, Forex), per Deposits & Withdrawals
+   row that is not a total, per Dividends, Interest and Withholding Tax row that is not a total, and
+   one balance assertion dated on the end of the statement period per Open Positions/Summary row
+   and per Forex Balances/Forex row, and nothing for any other record; it needs the Base Currency
+   record before the first Forex trade and the Period record before the first position row.
+   Proved: what ONE record of each transaction kind other than a Forex trade yields, in any state
+   of the importer (the state is unchanged), and that the statement loop concatenates the per-record
+   results.  Not covered by a theorem: Forex trades (need the base currency), the two assertion
+   kinds (need the period), the Period and Base Currency records, and that all other records
+   are ignored. *)
+Theorem C13_interactivebrokers_deposit_row_partial : forall acct dividend interest tax fee trading st cur day desc amt d q,
+  acct <> tbd_account ->
+  str_eqb cur s_total = false -> is_empty day = false -> valid_name cur = true ->
+  parse_iso day = Some d -> ibs_num2 amt = Some q ->
+  exists t, ib_line acct dividend interest tax fee trading st [s_deposits; s_data; cur; day; desc; amt] = MOk (st, [DTxn t]) /\
+    books_b acct (mkEffect d [(cur, q)]) [mkLeg tbd_account acct cur q] None t.
+Proof. intros. eapply ib_deposit_row; eassumption. Qed.
+Print Assumptions C13_interactivebrokers_deposit_row_partial.
+
+Theorem C13_interactivebrokers_dividend_row_partial : forall acct dividend interest tax fee trading st cur day desc amt d q,
+  acct <> dividend ->
+  is_prefix s_total cur = false -> valid_name cur = true -> parse_iso day = Some d -> ibs_num amt = Some q ->
+  ibs_security desc <> [] ->
+  exists t, ib_line acct dividend interest tax fee trading st [s_dividends; s_data; cur; day; desc; amt] = MOk (st, [DTxn t]) /\
+    books_b acct (mkEffect d [(cur, q)]) [mkLeg dividend acct cur q] (Some [ibs_security desc]) t /\
+    t_desc t = build_desc desc.
+Proof. intros. eapply ib_dividend_row; eassumption. Qed.
+Print Assumptions C13_interactivebrokers_dividend_row_partial.
+
+Theorem C13_interactivebrokers_interest_row_partial : forall acct dividend interest tax fee trading st cur day desc amt d q,
+  acct <> interest ->
+  is_prefix s_total cur = false -> valid_name cur = true -> parse_iso day = Some d -> ibs_num amt = Some q ->
+  exists t, ib_line acct dividend interest tax fee trading st [s_interest; s_data; cur; day; desc; amt] = MOk (st, [DTxn t]) /\
+    books_b acct (mkEffect d [(cur, q)]) [mkLeg interest acct cur q] (Some [cur]) t /\
+    t_desc t = build_desc desc.
+Proof. intros. eapply ib_interest_row; eassumption. Qed.
+Print Assumptions C13_interactivebrokers_interest_row_partial.
+
+Theorem C13_interactivebrokers_withholding_row_partial : forall acct dividend interest tax fee trading st cur day desc amt code d q,
+  acct <> tax ->
+  is_prefix s_total cur = false -> valid_name cur = true -> parse_iso day = Some d -> ibs_num amt = Some q ->
+  ibs_security desc <> [] ->
+  exists t, ib_line acct dividend interest tax fee trading st [s_withholding; s_data; cur; day; desc; amt; code] = MOk (st, [DTxn t]) /\
+    books_b acct (mkEffect d [(cur, q)]) [mkLeg tax acct cur q] (Some [ibs_security desc]) t /\
+    t_desc t = build_desc desc.
+Proof. intros. eapply ib_withholding_row; eassumption. Qed.
+Print Assumptions C13_interactivebrokers_withholding_row_partial.
+
+(* the holding changes by the quantity ROUNDED to two places (ibs_num2), the cash by the ROUNDED
+   proceeds plus the signed, unrounded commission *)
+Theorem C13_interactivebrokers_stock_row_partial :
+  forall acct dividend interest tax fee trading st cur sym stamp qs ps x9 prs fs x12 x13 x14 x15 x16 d qty price proceeds feeq,
+  acct <> fee -> acct <> trading ->
+  valid_name cur = true -> valid_name sym = true ->
+  Nat.leb 10 (length stamp) = true -> parse_iso (firstn 10 stamp) = Some d ->
+  ibs_num2 qs = Some qty -> ibs_num ps = Some price -> ibs_num2 prs = Some proceeds -> new_from_string fs = Some feeq ->
+  exists t, ib_line acct dividend interest tax fee trading st
+              [s_trades; s_data; s_order; s_stocks; cur; sym; stamp; qs; ps; x9; prs; fs; x12; x13; x14; x15; x16] = MOk (st, [DTxn t]) /\
+    books_b acct (mkEffect d [(sym, qty); (cur, proceeds); (cur, feeq)])
+            [mkLeg trading acct sym qty; mkLeg trading acct cur proceeds; mkLeg fee acct cur feeq] (Some [sym; cur]) t.
+Proof. intros. eapply ib_stock_row; eassumption. Qed.
+Print Assumptions C13_interactivebrokers_stock_row_partial.
+
+Theorem C13_interactivebrokers_loop : forall acct dividend interest tax fee trading st r rest st' ds,
+  ib_line acct dividend interest tax fee trading st r = MOk (st', ds) ->
+  ib_rows acct dividend interest tax fee trading st (CRec r :: rest) =
+  mbind (ib_rows acct dividend interest tax fee trading st' rest) (fun ds' => MOk (ds ++ ds')).
+Proof. exact ib_rows_cons. Qed.
+Print Assumptions C13_interactivebrokers_loop.
+
+(* rounding loses what the row says: 0.1615 shares are booked as 0.16 *)
+Example C13_interactivebrokers_rounding_witness :
+  ibs_num [48;46;49;54;49;53]%Z = Some (mkDec 1615 (-4)) /\ ibs_num2 [48;46;49;54;49;53]%Z = Some (mkDec 16 (-2)).
+Proof. vm_compute. split; reflexivity. Qed.
